@@ -129,7 +129,16 @@ _WORK = {}
 
 
 def _worker_init(check_mod_name, tier, seed):
-    bind_repo()
+    repo = bind_repo()
+    covdir = os.environ.get("VERIF_COVERAGE")
+    if covdir:
+        # optional: line/branch coverage of the library under the exploration (bin/coverage); off by default
+        import coverage
+        os.makedirs(covdir, exist_ok=True)
+        cov = coverage.Coverage(data_file=os.path.join(covdir, ".coverage"), data_suffix=True, branch=True,
+                                include=[os.path.join(repo, "metomi", "isodatetime", "*.py")])
+        cov.start()
+        _WORK["cov"] = cov
     _WORK["mod"] = importlib.import_module(check_mod_name)
     _WORK["tier"], _WORK["seed"] = tier, seed
 
@@ -155,6 +164,8 @@ def _worker_run(item):
         ctx.violation("library_raised", {"exc": type(ex).__name__}, {"kind": "unit", "unit": _js_unit(unit)},
                       "the operation returns (inputs are valid by construction)",
                       "".join(traceback.format_exception(type(ex), ex, ex.__traceback__)[-4:]))
+    if "cov" in _WORK:
+        _WORK["cov"].save()
     res = ctx.result()
     res["wall"] = time.time() - t_unit
     res["unit"] = repr(unit)[:200]
